@@ -395,10 +395,10 @@ def explore(prop, tier, engine_name, plan, master, jobs):
                     break
                 pending.add(ex.submit(_batch, t))
             while pending:
-                done, pending = cf.wait(pending, timeout=660,
+                done, pending = cf.wait(pending, timeout=300,
                                         return_when=cf.FIRST_COMPLETED)
                 if not done:
-                    harness_fatal = 'worker batch did not return within 660 s'
+                    harness_fatal = 'worker batch did not return within 300 s'
                     break
                 for f in done:
                     try:
